@@ -88,6 +88,11 @@ def make_target(cfg, variant):
     if variant == "aslist":
         fr, el = fl.build_fr(cfg, aslist=True, neither=True)
         return fr, el, lambda res: res, fl.norm
+    if variant == "ret":
+        # the element hands out its results in a container of kind cfg.ret (a list of its own that it keeps
+        # mutating, an iterator over it, a tuple, a fresh list that it empties at its next reset)
+        fr, el = fl.build_fr(cfg, el=fl.RET_KINDS[cfg["kind"]](cfg["m"], cfg["ret"]))
+        return fr, el, lambda res: res, fl.norm
     if variant == "seq":
         fr, el = fl.build_fr(cfg)
         seq = lena.core.FillRequestSeq(fl.ident, fr, fl.Post(), bufsize=2, reset=False, buffer_input=True)
@@ -190,7 +195,7 @@ def replay_schedule(ctx, agg, cfg, h, variant, record=None):
     """Drive the real adapter along the schedule h = [{op, res}...]; compare after every call.
 
     record: list to which trace events are appended (C2S)."""
-    comp = COMP[variant]
+    comp = COMP[variant] if variant != "ret" else "FillRequest(results-as-%s)" % cfg["ret"]
     if record is not None:
         agg = NoAgg()        # failures of recorded scenarios are reported through the trace spec
     if agg.skip(comp, cfg):
@@ -207,6 +212,8 @@ def replay_schedule(ctx, agg, cfg, h, variant, record=None):
 
 
 def variants_for(cfg, thorough):
+    if cfg.get("ret", "gen") != "gen":
+        return ["ret"]
     vs = ["content"]
     if cfg["kind"] == "fr" and (cfg["m"] == 1 or thorough) or (cfg["kind"] == "fc" and thorough):
         vs.append("seq")
@@ -598,6 +605,11 @@ def run(ctx):
     if leg.violated is None:
         raise core.MachineryError("the invariants of FillRequest.tla accept the legacy variant")
     ctx.extra["legacy_variant_rejected_by"] = leg.violated
+    # ... and an output buffer that keeps the element's own list instead of its values
+    noc = ctx.mc("FillRequest", "FillRequest_nocopy.cfg", expect_violation="report")
+    if noc.violated not in ("ConcatEqRun", "RetIndependent"):
+        raise core.MachineryError("FillRequest.tla does not reject the nocopy variant (violated: %s)" % noc.violated)
+    ctx.extra["nocopy_variant_rejected_by"] = noc.violated
 
     agg = Agg(ctx)
     nfree = sum(1 for rec in recs if rec["t"] == "fr")
